@@ -76,11 +76,13 @@ type model struct {
 	flags   map[string]bool
 	log     func(format string, a ...interface{})
 	overran map[int]bool
+	// blockFacts[h]: schedule regime and books state at block h (for the restart clause's signature)
+	blockFacts map[int64]string
 }
 
 func newModel(s *wspec, genesis time.Time) *model {
 	m := &model{s: s, genesis: genesis, times: map[int64]time.Time{}, credited: map[string]map[int64]*big.Int{}, withdrawn: map[string]*big.Int{},
-		info: map[string]int64{}, regimes: map[string]bool{}, flags: map[string]bool{}, overran: map[int]bool{}, regime: -1}
+		info: map[string]int64{}, regimes: map[string]bool{}, flags: map[string]bool{}, overran: map[int]bool{}, blockFacts: map[int64]string{}, regime: -1}
 	for _, y := range s.Supplies {
 		m.supplies = append(m.supplies, olt(y))
 		m.dist = append(m.dist, new(big.Int))
@@ -213,12 +215,12 @@ func (m *model) step(b blockInfo, prev, cur *view) {
 	for _, a := range vals {
 		d := new(big.Int).Sub(cur.chunkSum(a), prev.chunkSum(a))
 		if d.Sign() < 0 {
-			m.violate("reward-record-decreased", "op="+opKind(b.Ev)+"|record=interval-chunk|regime="+m.regimeName(),
+			m.violate("reward-record-decreased", "op=begin-block|record=interval-chunk|regime="+m.regimeName(),
 				fmt.Sprintf("h=%d: the interval chunks of %s decreased by %s", h, a, new(big.Int).Neg(d)))
 		}
 		for idx, n := range cur.chunks[a] {
 			if p := prev.chunks[a][idx]; p != nil && n.Cmp(p) < 0 {
-				m.violate("reward-record-decreased", "op="+opKind(b.Ev)+"|record=interval-chunk|regime="+m.regimeName(),
+				m.violate("reward-record-decreased", "op=begin-block|record=interval-chunk|regime="+m.regimeName(),
 					fmt.Sprintf("h=%d: chunk %d of %s went from %s to %s", h, idx, a, p, n))
 			}
 		}
@@ -235,12 +237,12 @@ func (m *model) step(b blockInfo, prev, cur *view) {
 	// delegators' claims (balance + pending payouts) may only grow through the counter (the alphabet has
 	// no delegation-reward withdrawal, pending payouts only leave)
 	if dDelegBal.Cmp(dDeleg) > 0 {
-		m.violate("delegator-credit-not-counted", "op="+opKind(b.Ev)+"|regime="+m.regimeName(),
+		m.violate("delegator-credit-not-counted", "op=begin-block|regime="+m.regimeName(),
 			fmt.Sprintf("h=%d: delegators' reward balances grew by %s but delegRwz_total_rewards only by %s", h, dDelegBal, dDeleg))
 		dDeleg = dDelegBal
 	}
 	if dDeleg.Sign() < 0 {
-		m.violate("reward-record-decreased", "op="+opKind(b.Ev)+"|record=delegRwz_total_rewards|regime="+m.regimeName(), fmt.Sprintf("h=%d: delegRwz_total_rewards decreased by %s", h, new(big.Int).Neg(dDeleg)))
+		m.violate("reward-record-decreased", "op=begin-block|record=delegRwz_total_rewards|regime="+m.regimeName(), fmt.Sprintf("h=%d: delegRwz_total_rewards decreased by %s", h, new(big.Int).Neg(dDeleg)))
 	}
 	credited.Add(credited, dDeleg)
 	if credited.Sign() > 0 {
@@ -262,7 +264,16 @@ func (m *model) step(b blockInfo, prev, cur *view) {
 	if len(b.Ev.Absent) > 0 {
 		votes = "absent-signer"
 	}
-	facts := "op=" + opKind(b.Ev) + "|regime=" + m.regimeName() + "|delegpool=" + pc + "|votes=" + votes
+	_ = votes
+	books := "within-supply"
+	if len(m.overran) > 0 {
+		books = "overran"
+	}
+	// the operation behind every block-reward clause is the reward distribution of BeginBlock; what
+	// discriminates root causes is the schedule regime, whether a year's books already overran, and
+	// the size class of the delegation pool (it selects the split formulas)
+	facts := "op=begin-block|regime=" + m.regimeName() + "|year-books=" + books + "|delegpool=" + pc
+	m.blockFacts[h] = "regime=" + m.regimeName() + "|year-books=" + books
 	m.log("h=%d t=+%ds ev=%s regime=%s N=%d pulled(fresh)=%s credited=%s (delegators %s) pool=%s delegpool=%s", h, secs(b.T.Sub(m.genesis)), b.Ev.Name, m.regimeName(), m.cycleN, fresh, credited, dDeleg, prev.rewardPool, prev.delegPool)
 
 	// ---- (a) credited <= pulled <= schedule
@@ -327,7 +338,7 @@ func (m *model) step(b blockInfo, prev, cur *view) {
 			m.flags["overrun"] = true
 			m.log("   NOTE h=%d: year %d distributed %s > supply %s", h, i+1, y.Distributed, m.supplies[i])
 			if overrunIsViolation {
-				m.violate("year-distributed>year-supply", fmt.Sprintf("op=%s|regime=%s|forecast-blocks<cycle=%v", opKind(b.Ev), m.regimeName(), m.cycleN < s.Cycle),
+				m.violate("year-distributed>year-supply", fmt.Sprintf("op=begin-block|regime=%s|forecast-blocks<cycle=%v", m.regimeName(), m.regime >= 0 && m.cycleN < s.Cycle),
 					fmt.Sprintf("h=%d: year %d has distributed %s, its supply is %s (per-block amount %s, %d blocks forecast, cycle of %d blocks)", h, i+1, y.Distributed, m.supplies[i], fresh, m.cycleN, s.Cycle))
 			}
 		}
@@ -377,7 +388,7 @@ func (m *model) step(b blockInfo, prev, cur *view) {
 		have := new(big.Int).Add(get(cur.cumBal, a), get(cur.cumWd, a))
 		mat := m.maturedAt(a, h)
 		if have.Cmp(mat) > 0 {
-			m.violate("matured>aged-credit", "op="+opKind(b.Ev)+"|regime="+m.regimeName(), fmt.Sprintf("h=%d: matured balance + withdrawn of %s is %s, credited at least two interval boundaries ago: %s", h, a, have, mat))
+			m.violate("matured>aged-credit", "op=begin-block|regime="+m.regimeName(), fmt.Sprintf("h=%d: matured balance + withdrawn of %s is %s, credited at least two interval boundaries ago: %s", h, a, have, mat))
 		}
 		hadPrev := new(big.Int).Add(get(prev.cumBal, a), get(prev.cumWd, a))
 		if have.Cmp(hadPrev) > 0 {
@@ -404,7 +415,7 @@ func (m *model) step(b blockInfo, prev, cur *view) {
 		m.violate("rewards-pool-accounting", "op="+opKind(b.Ev), fmt.Sprintf("h=%d: rewards pool is %s, expected %s (previous balance, accepted withdrawals and donations)", h, cur.rewardPool, wantPool))
 	}
 	if len(cur.negative) > 0 {
-		m.violate("negative-reward-record", "op="+opKind(b.Ev)+"|regime="+m.regimeName(), fmt.Sprintf("h=%d: negative amounts stored under %v", h, cur.negative))
+		m.violate("negative-reward-record", "op=begin-block|regime="+m.regimeName(), fmt.Sprintf("h=%d: negative amounts stored under %v", h, cur.negative))
 	}
 }
 
